@@ -67,6 +67,26 @@ def write_case(root: Path, sdl: Optional[str], queries: Optional[str], config: D
     return cfg
 
 
+def plant_stale_bundled_copies(root: Path, cfg: Dict[str, Any]) -> int:
+    """The target package directory already exists and holds copies of the bundled files (base clients, base model, exceptions, __init__) left by ANOTHER release:
+    other content, modification times newer than the installed generator's files and than every input.  A generation must replace them.  -> number of files planted."""
+    import time
+    base_dir = Path(cfg.get("target_package_path", str(root)))
+    pkg_dir = (base_dir if base_dir.is_absolute() else Path(root) / base_dir) / cfg.get("target_package_name", "graphql_client")
+    if pkg_dir.exists():
+        return 0
+    pkg_dir.mkdir(parents=True)
+    # only files this configuration writes again (the generator does not clean its target: the base client of another configuration would rightly stay)
+    own_base = ("async_" if cfg.get("async_client", True) else "") + "base_client" + ("_open_telemetry" if cfg.get("opentelemetry_client") else "") + ".py"
+    names = ([] if cfg.get("base_client_file_path") else [own_base, "exceptions.py"]) + ["base_model.py", "__init__.py", "%s.py" % cfg.get("enums_module_name", "enums"),
+                                                                     "%s.py" % cfg.get("input_types_module_name", "input_types"), "%s.py" % cfg.get("client_file_name", "client")]
+    future = time.time() + 3600
+    for fn in names:
+        (pkg_dir / fn).write_text("raise RuntimeError('copy left by an older release: %s')\n" % fn)
+        os.utime(pkg_dir / fn, (future, future))
+    return len(names)
+
+
 def run_cli(root: Path, strategy: Optional[str] = "client", config: Optional[Dict[str, Any]] = None, config_rel: Optional[str] = None) -> GenResult:
     """Invoke ariadne_codegen.main.main through click's test runner with cwd=root.  config_rel: the configuration is not ./pyproject.toml but this file
     (moved there), passed with --config; paths inside it stay relative to the working directory, as documented."""
@@ -277,6 +297,7 @@ class RefServer:
         self.responses: List[Dict[str, Any]] = []
         self.validation_errors: List[Any] = []
         self.override_response: Optional[Callable[[Dict[str, Any]], httpx.Response]] = None
+        self.drop_next = 0  # number of coming requests the peer answers by closing the connection
 
     def _answer(self, request: httpx.Request) -> httpx.Response:
         self.raw_requests.append(request)
@@ -286,6 +307,10 @@ class RefServer:
             self.captured.append({"undecodable": repr(e), "content": request.content[:500].decode("latin-1")})
             return httpx.Response(400, json={"errors": [{"message": "undecodable request"}]})
         self.captured.append(body)
+        if self.drop_next:
+            # the peer read the request and then dropped the connection (a keep-alive connection that went away): what httpx reports for it
+            self.drop_next -= 1
+            raise httpx.RemoteProtocolError("Server disconnected without sending a response.", request=request)
         if self.override_response is not None:
             return self.override_response(body)
         resp, verrs, _ = run_query(self.schema, self.world, body.get("query"), body.get("variables"), body.get("operationName"))
